@@ -16,7 +16,7 @@ MANIFEST = dict(
          "the lock is held for at most retry x (timeout + 100 ms + pause) (holder_time_bounded, potential-function invariant) and a free lock with parked callers is handed "
          "over before time passes. Tie = trace validation: real GeckoAsyncUdpProtocol.get with seeded concurrent callers of mixed retry/timeout on the virtual-time loop, "
          "scripted replies (prompt / late / never / wrong verb); every observed call, lock hand-off, poll, send, pause end and return must be enabled in the model and "
-         "agree with its send log and results. Gating is checked on the real GeckoAsyncSpa entry points. Session 4: an arrival-order monitor (no later caller is transmitted while an earlier caller has not completed). The lock shape of get() is a theorem over its regenerated suspension skeleton (get_lock_shape: every transmission while the caller holds the lock, the lock taken once per call, for every trace). Also the multi-segment request (GeckoAsyncStructure.get): every attempt consumes retry budget in both gets (every_attempt_consumes_budget over the regenerated skeletons) and the partial-loss pattern (a middle segment lost every time, the final one arriving) is driven on the real code. The answering-pings gate is searched with the real ping loop against a spa that stops answering, after silences of 150 s to two days (a week in the thorough tier), on a virtual clock that also drives time.time and datetime.now. A query whose replies are all lost while the spa keeps sending unsolicited partial updates (the connection`s consumers running); request_clock_is_the_handlers_own. Session 5: unwrapper_overwrites_its_fields_for_every_datagram (every normal end of GeckoPacketProtocolHandler.handle assigns addressing and content: nothing of the previous datagram survives; everyNormalEndDid_sound), and stray traffic on the real consumers: after an answered query the spa goes quiet for that verb while malformed framings, packets for another client or from another host and garbage arrive - the query reports failure after exactly its retry count; then the spa falls silent under the same strays and the answering-pings gate closes. The silence scenario also runs with the WALL clock stepped back an hour when the spa falls silent (vloop.WALL_SHIFT moves time.time / datetime.now without the monotonic clock).",
+         "agree with its send log and results. Gating is checked on the real GeckoAsyncSpa entry points. Session 4: an arrival-order monitor (no later caller is transmitted while an earlier caller has not completed). The lock shape of get() is a theorem over its regenerated suspension skeleton (get_lock_shape: every transmission while the caller holds the lock, the lock taken once per call, for every trace). Also the multi-segment request (GeckoAsyncStructure.get): every attempt consumes retry budget in both gets (every_attempt_consumes_budget over the regenerated skeletons) and the partial-loss pattern (a middle segment lost every time, the final one arriving) is driven on the real code. The answering-pings gate is searched with the real ping loop against a spa that stops answering, after silences of 150 s to two days (a week in the thorough tier), on a virtual clock that also drives time.time and datetime.now. A query whose replies are all lost while the spa keeps sending unsolicited partial updates (the connection`s consumers running); request_clock_is_the_handlers_own. Session 5: unwrapper_overwrites_its_fields_for_every_datagram (every normal end of GeckoPacketProtocolHandler.handle assigns addressing and content: nothing of the previous datagram survives; everyNormalEndDid_sound), and stray traffic on the real consumers: after an answered query the spa goes quiet for that verb while malformed framings, packets for another client or from another host and garbage arrive - the query reports failure after exactly its retry count; then the spa falls silent under the same strays and the answering-pings gate closes. The silence scenario also runs with the WALL clock stepped back an hour when the spa falls silent (vloop.WALL_SHIFT moves time.time / datetime.now without the monotonic clock). Round 14: the retransmissions of the real connection sequence (first transmission of every handshake request lost / one segment lost): new sequence number per attempt of one connection, attempts a timeout apart unless answered.",
     note="partial: time bounds hold under the fairness hypothesis (no event-loop stall), with one polling interval of slack per attempt; asyncio.Lock FIFO hand-off and "
          "'no pre-emption between awaits' are assumed (exercised by the traces). Known finding D12: the connected/ping gates are evaluated once at call entry, so a call "
          "parked on the lock can transmit after pings have gone stale.",
@@ -612,6 +612,68 @@ def search_strays(ctx):
                       "after the spa stops answering pings the gate closes and no command datagram is sent", o)
 
 
+def search_handshake_retries(ctx):
+    """"each attempt freshly built, one attempt at a time", on the requests the REAL connection sequence makes (`GeckoAsyncSpa._connect`
+    builds each request's factory itself): the first transmission of every handshake request is lost (and, second run, one segment of
+    the status block answer); on the wire every retransmission of a request carries a NEW sequence number, and unless an answer
+    datagram came in between it follows the previous attempt by no less than the protocol timeout"""
+    import fakenet
+    import geckolib.config as cfg
+    from geckolib import GeckoAsyncSpaMan
+    from props import c10
+    verbs = (b"AVERS", b"CURCH", b"SFILE", b"STATU")
+    for label, phases in (("first-transmission-lost", [("until:CONNECTED", "first:1")]), ("first-segment-lost", [("until:CONNECTED", "segonce:0")])):
+        rec = {}
+
+        async def body(loop):
+            rec["attempts"] = []
+
+            class Man(GeckoAsyncSpaMan):
+                async def handle_event(self, event, **kw):
+                    if "CONNECTION_STARTED" in str(event):
+                        rec["attempts"].append(loop.time())        # sequence numbers start again with every connection
+            sim = fakenet.make_sim(c10.SNAP)
+            net = fakenet.Network(loop, sim, phases=phases, seed=1)
+            loop.network = net
+            m = Man("uuid-1", spa_identifier=c10.IDENT, spa_address="10.0.0.9", spa_name="Spa")
+            net.state_fn = lambda: str(m.spa_state).split(".")[-1]
+            await m.__aenter__()
+            for _ in range(4000):
+                await asyncio.sleep(0.05)
+                if m.facade is not None and str(m.spa_state).endswith("CONNECTED"):
+                    break
+            rec["connected"] = m.facade is not None
+            rec["log"] = list(net.log)
+            await m.__aexit__(None, None, None)
+        vloop.run_virtual(body, stable=True)
+        T = cfg.GeckoConfig.PROTOCOL_TIMEOUT_IN_SECONDS
+        R = cfg.GeckoConfig.PROTOCOL_RETRY_COUNT
+        problems = []
+        bounds = list(rec.get("attempts", [])) + [float("inf")]
+        for v, (lo, hi) in [(v_, w_) for v_ in verbs for w_ in zip(bounds, bounds[1:])]:
+            sends = [(t, d) for (t, dr, d) in rec.get("log", []) if dr == "c>s" and fakenet.Network._verb(d) == v and lo <= t < hi]
+            seqs = []
+            for (t, d) in sends:
+                k = d.find(b"<DATAS>")
+                seqs.append((round(t, 3), d[k + 12] if k >= 0 and len(d) > k + 12 else None))
+            if len(seqs) != len({q for _, q in seqs}):
+                problems.append({"verb": v.decode(), "problem": "a retransmission carries the sequence number of an earlier attempt", "transmissions (t, seq)": seqs[:8]})
+            if len(seqs) > R:
+                problems.append({"verb": v.decode(), "problem": f"more than {R} transmissions", "transmissions (t, seq)": seqs[:12]})
+            for (t1, _), (t2, _) in zip(seqs, seqs[1:]):
+                answered = any(dr == "s>c" and t1 < t <= t2 and fakenet.Network._verb(d)[:3] in (v[:3], b"STA", b"SVE", b"CHC", b"FIL")
+                               for (t, dr, d) in rec.get("log", []))
+                if t2 - t1 < T - 0.2 and not answered:
+                    problems.append({"verb": v.decode(), "problem": f"attempts {t2 - t1:.3f} s apart with no answer in between (timeout {T} s)", "transmissions (t, seq)": seqs[:8]})
+                    break
+        ctx.count("evaluations")
+        ctx.hist("handshake_retries", f"{label}:{'connected' if rec.get('connected') else 'not-connected'}")
+        if problems or not rec.get("connected"):
+            ctx.violation(f"handshake-retries:{label}", {"kind": "handshake-retries", "loss": label},
+                          "every retransmission is a freshly built request (new sequence number), one attempt at a time, and the connection completes",
+                          {"connected": rec.get("connected"), "problems": problems[:3]})
+
+
 def search_struct_get(ctx):
     """the multi-segment request (GeckoAsyncStructure.get: one STATU answered by a chain of STATV segments, under the same
     connection lock): attempts that end WITHOUT a timeout - a middle segment lost every time, the final one arriving out of
@@ -694,6 +756,10 @@ def run(ctx):
     except Exception as e:  # noqa
         ctx.obligation_broken("harness:strays", f"{type(e).__name__}: {e}")
     search_struct_get(ctx)
+    try:
+        search_handshake_retries(ctx)
+    except Exception as e:  # noqa
+        ctx.obligation_broken("harness:handshake-retries", f"{type(e).__name__}: {e}")
     ctx.cov["distinct_nontrivial"] = len(nontrivial)
     ctx.cov["rule"] = ("each run = 1..8 (thorough ..20) concurrent callers of the real protocol.get with seeded arrival times, retry in {1,2,3,10}, timeout in {0.35,1.05,4.05} s (+0.5 ms in the real handler, so that no floating-point tie on a whole millisecond decides a timeout; the model's strict > on whole ms is then exact), "
                        "pause in {0,0.1,0.5,2} s and per-attempt reply scripts (prompt / around the poll interval / late / never / wrong verb), seeded shuffle of ready callbacks; "
@@ -738,6 +804,8 @@ def replay(inp):
         search_struct_get(ctx)
     elif inp.get("kind") == "chatter":
         search_chatter(ctx)
+    elif inp.get("kind") == "handshake-retries":
+        search_handshake_retries(ctx)
     elif inp.get("kind") == "strays":
         search_strays(ctx)
         ctx.violations[:] = [v for v in ctx.violations if v["input"].get("stray") == inp.get("stray")]
